@@ -2,7 +2,7 @@ SPECIFICATION MCSpec
 CONSTANTS
   MaxRecs = 4
   MaxBatch = 1
-  MaxOps = 7
+  MaxOps = 6
   MaxEpoch = 1
   CapSet = {1, 2}
   KeySet = {"nil", "a"}
